@@ -104,6 +104,11 @@ class Ctx:
             return
         if c is False:
             raise PathEnd()
+        if z3.is_expr(c):
+            ids = self.__dict__.setdefault('_pc_ids', set())
+            if c.get_id() in ids:
+                return            # the same fact again (range facts are restated at every element access)
+            ids.add(c.get_id())
         self.pc.append(c)
         if not has_quantifier(c):
             # the feasibility solver sees only the quantifier-free part of the path condition
